@@ -3,7 +3,7 @@ From Coq Require Import List String.
 From VQ.Gen Require Import pat_euclid_forward.
 Import ListNotations.
 Open Scope string_scope.
-Lemma pin_pat_euclid_forward : pat_euclid_forward =
+Definition pinned_pat_euclid_forward : list (string * string) :=
   [("rearrange", "... -> 1 ...");
    ("pack_one", "h * d");
    ("repeat", "b n -> c (b h n)");
@@ -19,4 +19,5 @@ Lemma pin_pat_euclid_forward : pat_euclid_forward =
    ("einsum", "h n d, h n c -> h c d");
    ("rearrange", "1 ... -> ...");
    ("unpack_one", "h * d")].
+Lemma pin_pat_euclid_forward : pat_euclid_forward = pinned_pat_euclid_forward.
 Proof. reflexivity. Qed.
